@@ -64,6 +64,7 @@ type Contract struct {
 	Line        int
 	Lets        []*LetClause // ghost lets usable in ensures
 	AtCall      []AtCallClause
+	Opaque      map[string]bool // pure callees whose postconditions this unit does not use
 	Closure     int // >0: the contract is about the n-th function literal of the named function
 }
 
@@ -438,7 +439,7 @@ func firstWord(s string) string {
 }
 
 var contractKeywords = map[string]bool{"func": true, "emitted": true, "requires": true, "ensures": true, "pure": true,
-	"assume-contract": true, "modifies": true, "existing": true, "decreases": true, "loop": true, "noinline": true, "let": true, "fresh": true, "at-call": true, "closure": true}
+	"assume-contract": true, "modifies": true, "existing": true, "decreases": true, "loop": true, "noinline": true, "let": true, "fresh": true, "at-call": true, "closure": true, "opaque": true}
 
 func splitName(t string) (name, rest string) {
 	// optional "name:" prefix, name is an identifier with dots/brackets
@@ -550,6 +551,17 @@ func (w *World) LoadContractFile(path string, pkgShort string) error {
 				return fail(fmt.Errorf("closure ordinal: %v", err))
 			}
 			cur.Closure = n
+		case "opaque":
+			// opaque <callee>[, <callee>...]: in this unit, calls of these pure functions are used as function symbols
+			// only (their postconditions are not assumed) - keeps unrelated quantified facts out of the queries
+			for _, n := range strings.Split(rest, ",") {
+				if n = strings.TrimSpace(n); n != "" {
+					if cur.Opaque == nil {
+						cur.Opaque = map[string]bool{}
+					}
+					cur.Opaque[n] = true
+				}
+			}
 		case "at-call":
 			// at-call <callee> requires [name:] <expr>
 			f := strings.Fields(rest)
